@@ -236,6 +236,13 @@ def _summarise(mod, prop, tier, seed, results, findings, t0, replay):
             f.write(jdump(rp))
         lines.append("VIOLATION property=%s replay=%s  # %s %s" % (
             prop, os.path.relpath(path, VERIF_DIR), mech, str(v.get("detail", ""))[:200]))
+    if os.environ.get("VERIF_DUMP"):
+        os.makedirs(os.path.join(VERIF_DIR, ".work"), exist_ok=True)
+        with open(os.path.join(VERIF_DIR, ".work", "viol_%s.jsonl" % prop), "w") as f:
+            for rec in viol_recs:
+                rr = {k: v for k, v in rec.items() if k != "_spec"}
+                rr["known"] = classify(dict(rec.get("viol") or {}), findings)
+                f.write(jdump(rr) + "\n")
     for mech, cnt in seen_mech.items():
         lines.append("#   %d x %s" % (cnt, mech))
     for e in findings:
